@@ -621,9 +621,10 @@ def run(ctx):
 
     ops = A.public_ops()
     # which operations are in the straight-line class: ask the generated model
-    simple_txt = C.coq_eval('C08', 'Lib.Prog Model.ApiShape Gen.ApiOps Corr.C08',
-                            '(map o_name (filter (simple_checked api_ops) api_ops), '
-                            'map qname (filter (fun o => negb (classified api_ops o)) api_ops))')
+    simple_txt = A.with_fresh_gen(GENS, ['Corr/C08.vo'], lambda: C.coq_eval(
+        'C08', 'Lib.Prog Model.ApiShape Gen.ApiOps Corr.C08',
+        '(map o_name (filter (simple_checked api_ops) api_ops), '
+        'map qname (filter (fun o => negb (classified api_ops o)) api_ops))'))
     parts = simple_txt.split('],')
     simple = set(re.findall(r'"([^"]+)"', parts[0])) if parts else set()
     unclassified = re.findall(r'"([^"]+)"', parts[1]) if len(parts) > 1 else []
@@ -746,7 +747,8 @@ def run(ctx):
         terms.append('chk_send %d%%nat %s %d%%nat %s' % (retry, c_replies(itf.log), len(itf.log), obs))
         meta.append(('send_message', retry, seq))
         D.add(('send', retry, tuple(seq)), True, 'send_message')
-    failing, errors = C.coq_cases('C08', 'Lib.Prog Model.ApiShape Gen.ApiOps Corr.C08', terms)
+    failing, errors = A.with_fresh_gen(GENS, ['Corr/C08.vo'], lambda: C.coq_cases(
+        'C08', 'Lib.Prog Model.ApiShape Gen.ApiOps Corr.C08', terms))
     res.mismatches = [{'case': meta[i], 'term': terms[i][:500]} for i in failing[:50]]
     res.extra['mismatch_samples'] = res.mismatches[:5]
     res.corr_errors = errors
